@@ -50,6 +50,21 @@ CLAIMED = {
  "C18": ("eng-crypto", "ground-truth evaluation of atomic statements vs prover/verifier outcomes + single-field perturbations of requests, presentations and contexts",
    "Exploration: attribute statement sets (reveal, range, set, not-in-set at their boundaries, string and numeric attributes) and web3id presentations over account and web3 credentials (with linking proofs) are generated; all-true sets must prove, verify and reveal exactly the committed values, sets with a false statement must not verify, and 15+23 kinds of perturbations of statements, challenge, commitments, metadata and proofs must be rejected.",
    "Trusted: harness evaluation of statements. web3id v1 (web3id/v1/*) and identity_attributes_credentials are not covered; legacy Version1 range proofs are not bound to the context by design and are only observed."),
+ "C06": ("eng-sig", "executable threshold-policy predicate + independent recomputation of digests/hashes/sizes/energy + single-bit perturbations",
+   "Exploration: access structures with sparse credential/key indices and all thresholds, signer subsets at/below/above thresholds with unknown credentials or keys, invalid and swapped signatures are verified through every public verification entry point (plain and sponsored transactions) and the outcome is compared with a 15-line predicate that checks each signature with ed25519-dalek directly; the sign digest, block-item hash, payload size and energy of constructed transactions and update instructions are recomputed from the serialized bytes; every single-bit change of header, payload, signatures or keys must make verification fail.",
+   "Trusted: the predicate in c06.rs. Not judged: maps in which a supplied credential carries fewer signatures than its own threshold while enough other credentials are satisfied (the library rejects them, the property text is silent); the library has no verifier for update instructions, so only the signing side is judged."),
+ "C12": ("eng-sig", "ground-truth arithmetic on amounts and chunks + honest/exceeding transfers + single-component perturbations",
+   "Exploration: amounts at chunk boundaries are encrypted, aggregated and decrypted with the library's table and compared with integer arithmetic; encrypted and secret-to-public transfers for balance/amount pairs (equal, zero, off by one) must verify and conserve value, transfers exceeding the balance must not be producible, and perturbations of every ciphertext component, key, aggregate index and proof must be rejected.",
+   "Trusted: the 32-bit chunk model. Decryption outside the table range and the unbound `index` field (documented) are not judged."),
+ "C19": ("eng-sig", "construction-history model (multiset of key/message pairs) vs verifier outcomes + single-bit perturbations",
+   "Exploration: BLS signatures, aggregates (sizes up to 151, duplicates, empty set where documented), proofs of possession, VRF proofs and outputs, PS blind issuance/unblinding and the ed25519 dlog proof are produced from known histories; every verifier must accept exactly what the history implies, the three aggregate verifiers must agree on their common domain, VRF outputs must be deterministic, and single-bit flips of signatures, proofs, keys and messages must be rejected.",
+   "Trusted: the history model. Rogue-key resistance without proofs of possession and inputs outside documented preconditions are not exercised."),
+ "C20": ("eng-sig", "naive reference arithmetic, independent decoder classification (arkworks / curve25519-dalek primitives), Lagrange interpolation with bigints, independent SLIP-10 and BLS KeyGen",
+   "Exploration: multi-exponentiation (all window sizes, boundary scalars, repeated and identity points, lengths 0-40) is compared with the sum of scalar multiples; candidate encodings of every class (valid, x >= p, flag errors, infinity and non-canonical infinity, off-curve, wrong subgroup, Ristretto non-canonical forms) are classified independently and must be accepted iff canonical, on-curve and in the subgroup, also through every wrapper type; hash-to-group determinism and membership; every threshold subset of shares must reconstruct the secret in the field and in the exponent and threshold-1 must not; key derivation is compared with an independent SLIP-10 (published vector included) and KeyGen.",
+   "Trusted: arkworks/curve25519-dalek primitives and the harness reimplementations. Fixed finding F7 (non-canonical infinity) is fed on every run as regression input."),
+ "C14": ("eng-host", "differential between the real host (v0/v1 invoke, interrupts played by the harness) and a reference interpreter with a host-interface model; allocation differential; ASan",
+   "Exploration: scripts of v0 and v1 host calls with hostile pointers, lengths, offsets, handles and tags, boundary scripts for every protocol limit, memory growth, crypto primitives and invoke/upgrade interrupts (responses chosen by the harness) are compiled to straight-line Wasm contracts and executed by the real engine with metering for P4..P7 and by the reference interpreter with a model of every host function and the transcribed energy schedule; outcome, return value, logs, v0 state and actions, v1 state contents, state_changed and remaining energy (exact where the schedule is a closed formula) must agree; budget sweeps and charge-before-work runs with an allocation differential check that no proportional work precedes its charge; no execution may panic.",
+   "Trusted: the host models model_v0.rs/model_v1.rs and the schedule transcription. Open known finding F9 (copy before charge in get_mut) is listed in known_findings.json. secp256k1 accept path is not observable with the shim; undocumented corners are excluded and counted (skip.undocumented)."),
 }
 
 REFS = {k: "5/" + k for k in CLAIMED}
